@@ -29,6 +29,10 @@ type Frag struct {
 	Decl string   `json:"decl,omitempty"` // top-level declarations (names suffixed with the fragment id)
 	Body string   `json:"body"`           // statements of func frag<i>()
 	Cats []string `json:"cats,omitempty"` // grammar categories exercised (statistics)
+	// GoOut, when set, is the recorded output of the Go side for this fragment.
+	// Only hand-written regression replay files carry it (so that replaying them
+	// in every shard needs no toolchain run); generated cases never do.
+	GoOut string `json:"go_out,omitempty"`
 }
 
 // ---- preludes
